@@ -292,6 +292,31 @@ def run(ctx):
     else:
         r5.bad('error-ctor', 'no ParseError construction found')
 
+    # positions and event distances are never narrowed below 32 bits: the forward-parent distance is the number of events
+    # of an operand, which grows with the input (65 536 events are about 40 KB of source)
+    n_cast = 0
+    narrow = None
+    for k in sorted(fx.fns):
+        if not k.startswith('trust_syntax::parser::') or '::tests::' in k:
+            continue
+        f2 = F(fx.fns[k])
+        for b in f2.g:
+            for st in f2.bbs[b]['s']:
+                if st[0] == 'A' and st[2][0] == 'cast' and 'IntToInt' in str(st[2][1]):
+                    src = op_local(st[2][2])
+                    sty = f2.local_ty(src) if src is not None else ''
+                    dty = f2.local_ty(st[1][0]) if not st[1][1] else str(st[2][3])
+                    if sty in ('usize', 'u64', 'u32'):
+                        n_cast += 1
+                        if str(st[2][3]) in ('u8', 'u16', 'i8', 'i16') or dty in ('u8', 'u16', 'i8', 'i16'):
+                            narrow = (f2, b, sty, str(st[2][3]))
+    r2.saw(max(n_cast, 1))
+    if narrow:
+        f2, b, sty, dty = narrow
+        r2.bad('no-narrow-offsets', 'the parser narrows a %s position / event distance to %s: beyond %d events the value wraps and the tree builder attaches or drops the wrong events (text of the tree differs from the input)' % (sty, dty, 2 ** (16 if '16' in dty else 8)), loc=f2.loc(b))
+    else:
+        r2.ok('no-narrow-offsets', detail='%d integer casts of positions, none below 32 bits' % n_cast)
+
     # ------------------------------------------------------------------ R6
     r6 = ctx.rule('C12.R6', 'lexer tiling: on every path of Lexer::next the emitted token ranges chain from the start of the first consumed logos span to the end of the last one', floor=4, floor_what='paths through Lexer::next')
     ln = [k for k in fx.fns if re.search(r'trust_syntax::lexer::Lexer<.*> as core::iter::traits::iterator::Iterator>::next$', k)]
